@@ -827,6 +827,10 @@ func run(r *lib.Run) {
 		jobs = append(jobs, func() *fam { return runPostFamily(r, i, perEra, deep) })
 	}
 
+	for i := 0; i < r.Pick(40, 400); i++ {
+		jobs = append(jobs, func() *fam { return runOracleFamily(r, i) })
+	}
+
 	results := make([]*fam, len(jobs))
 	var wg sync.WaitGroup
 	next := make(chan int, len(jobs))
